@@ -40,8 +40,8 @@ Fixpoint within_b (lenlim : Z) (v : lvalue) : bool :=
 Definition O := Build_obs.
 
 Inductive case :=
-(* limits, the calls (attributes given at Emit arrive as one AddAttributes each), observation at the exporter *)
-| CRec (lenlim limit : Z) (ops : list op) (o : obs)
+(* limits, the attributes of the emitted record (logger.newRecord), the calls made in OnEmit, observation at the exporter *)
+| CRec (lenlim limit : Z) (init : list lkv) (ops : list op) (o : obs)
 (* calls before Clone, calls after Clone applied to the original (false) or to the clone (true);
    observation of the clone and of the original at the end *)
 | CClone (lenlim limit : Z) (ops1 ops2 : list op) (on_clone : bool) (o_clone o_orig : obs)
@@ -92,10 +92,12 @@ Definition check_alias (lenlim limit : Z) (ops1 : list op) (sched : list (bool *
 
 Definition check_case (c : case) : list N :=
   match c with
-  | CRec lenlim limit ops o =>
-      flag (obs_eqb (observe (run_model lenlim limit ops)) o) V_MISMATCH ++
-      judge lenlim limit ops o ++
-      flag (match judge lenlim limit ops (observe (run_model lenlim limit ops)) with [] => true | [c] => 100 <? c | _ => false end) V_MODELSPEC
+  | CRec lenlim limit init ops o =>
+      (* the specification judges the emitted attributes as offered one by one (run_spec_emit = run_spec on these ops) *)
+      let sops := map (fun a => OAdd [a]) init ++ ops in
+      flag (obs_eqb (observe (run_emit lenlim limit init ops)) o) V_MISMATCH ++
+      judge lenlim limit sops o ++
+      flag (match judge lenlim limit sops (observe (run_emit lenlim limit init ops)) with [] => true | [c] => 100 <? c | _ => false end) V_MODELSPEC
   | CClone lenlim limit ops1 ops2 on_clone oc oo =>
       let r1 := run_model lenlim limit ops1 in
       let r2 := fold_left (step lenlim limit) ops2 (clone r1) in
